@@ -105,6 +105,11 @@ def check(run):
                if (c[0].get("k") == "MCall" and unwrap(c[0].get("recv") or {}).get("k") == "This" and callee_name(c[0]) in ("close", "open"))]
         inner = [(i, c) for i, c in enumerate(calls) if callee_qn(c[0]) == BASE + "::rotate_output"]
         assigns = [(lp, rhs, node) for lp, rhs, node in consumption.assignment_targets(ir.stmts(f["body"])) if lp == ("this", "m_value")]
+        # (the new target may be installed by exchanging m_value with a local that holds it)
+        for c_ in ir.calls_in(f["body"]):
+            if c_.get("k") == "MCall" and callee_name(c_) == "swap" and len(c_.get("args", [])) == 1 and path(c_.get("recv")) == ("this", "m_value") and \
+                    path(unwrap_all_casts(c_["args"][0])) and path(unwrap_all_casts(c_["args"][0]))[0].startswith("l:"):
+                assigns.append((("this", "m_value"), c_["args"][0], c_))
         # what a handler does on its way to re-throwing (restoring the previous name after a failed open, ...) is not part
         # of the rotation sequence itself
         in_rethrow = set()
